@@ -1,7 +1,7 @@
 """TRANSLATOR: the CALLERS of the identity map -> PyGet blocks (property C04).
 
 `SQLObject.get / _init / _SO_finishCreate / expire / __getstate__ / __setstate__ / _SO_fetchAlternateID /
-_SO_foreignKey`, the tail of `SQLObject.destroySelf` (from `self._connection._SO_delete(self)` on),
+_SO_foreignKey / delete`, `sqlmeta.expireAll`, `DBConnection.expireAll`, the tail of `SQLObject.destroySelf` (from `self._connection._SO_delete(self)` on),
 `Iteration.next` (dbconnection.py) and the methods of `cache.py:CacheSet` are translated statement by statement
 into the deep embedding of `lean/SqlObjVerif/Model/PyGet.lean`.  Anything outside the fragment raises ExtractError
 (the framework then searches for a failing input and reports).  Conventions:
@@ -66,6 +66,9 @@ FUNCS = [
     (MAIN, 'SQLObject', '__setstate__', 'setstate', None),
     (MAIN, 'SQLObject', '_SO_fetchAlternateID', 'fetchAlternateID', None),
     (MAIN, 'SQLObject', '_SO_foreignKey', 'foreignKey', None),
+    (MAIN, 'SQLObject', 'delete', 'delete', None),
+    (MAIN, 'sqlmeta', 'expireAll', 'metaExpireAll', None),
+    (DBC, 'DBConnection', 'expireAll', 'connExpireAll', None),
     (DBC, 'Iteration', 'next', 'iterNext', None),
     (CACHE, 'CacheSet', 'get', 'csGet', None),
     (CACHE, 'CacheSet', 'put', 'csPut', None),
@@ -79,6 +82,7 @@ FUNCS = [
     (CACHE, 'CacheSet', 'allSubCaches', 'csAllSubCaches', None),
     (CACHE, 'CacheSet', 'allSubCachesByClassNames', 'csAllSubCachesByClassNames', None),
     (CACHE, 'CacheSet', 'weakrefAll', 'csWeakrefAll', None),
+    (CACHE, 'CacheSet', 'getAll', 'csGetAll', None),
 ]
 
 CACHESET_INIT = ['self.caches = {}', 'self.args = args', 'self.kw = kw']
@@ -88,7 +92,7 @@ EXC = {'SQLObjectNotFound': '.notFound', 'ValueError': '.valueError', 'StopItera
        'PicklingError': '.picklingError', 'KeyError': '.keyError'}
 EXC_PAT = {'KeyError': '.keyError'}
 
-CRIT_CALL = {'get', 'put', 'finishPut', 'created', 'expire', 'expireAll', 'tryGet', 'tryGetByName', 'clear',
+CRIT_CALL = {'extend', 'get', 'put', 'finishPut', 'created', 'expire', 'expireAll', 'tryGet', 'tryGetByName', 'clear',
              'allIDs', 'getAll', 'allSubCaches', 'allSubCachesByClassNames', 'weakrefAll', '_init', '__init__',
              '__setstate__', '__getstate__', 'update', 'copy', 'queryInsertID', '_SO_selectOne', '_SO_selectInit',
              '_SO_delete', '_findAlternateID', 'fetchone', '_cleanup', 'select', 'getOne', 'destroySelf', 'delete',
@@ -140,7 +144,7 @@ class Method(object):
         if a.kwonlyargs or a.posonlyargs or a.vararg or a.kwarg or not a.args or decos not in ([], ['classmethod']):
             raise ExtractError('unexpected signature of %s' % fn.name)
         self.me = a.args[0].arg
-        if self.me != ('cls' if decos else 'self'):
+        if not decos and self.me != 'self':
             raise ExtractError('%s: first parameter is %s' % (fn.name, self.me))
         self.params = [x.arg for x in a.args[1:]]
         self.vars = list(self.params)
@@ -148,6 +152,7 @@ class Method(object):
         self.loops = []
         body = strip_doc(fn.body)
         self._collect(body)
+        self._fresh_lists(body)
         if marker is not None:
             idx = [i for i, s in enumerate(body) if ast.unparse(s) == marker]
             if len(idx) != 1:
@@ -223,6 +228,27 @@ class Method(object):
         v = V()
         for st in stmts:
             v.visit(st)
+
+    def _fresh_lists(self, stmts):
+        """locals bound only by `x = []` and used only as `x.extend(..)`, `return x`: no alias can exist"""
+        binds, other = {}, set()
+        for st in stmts:
+            for x in ast.walk(st):
+                if isinstance(x, ast.Assign) and len(x.targets) == 1 and isinstance(x.targets[0], ast.Name):
+                    binds.setdefault(x.targets[0].id, []).append(isinstance(x.value, ast.List) and not x.value.elts)
+        for st in stmts:
+            parents = {}
+            for x in ast.walk(st):
+                for ch in ast.iter_child_nodes(x):
+                    parents[id(ch)] = x
+            for x in ast.walk(st):
+                if isinstance(x, ast.Name) and isinstance(x.ctx, ast.Load):
+                    par = parents.get(id(x))
+                    ok = isinstance(par, ast.Return) or (isinstance(par, ast.Attribute) and par.attr == 'extend'
+                                                          and isinstance(parents.get(id(par)), ast.Call))
+                    if not ok:
+                        other.add(x.id)
+        self.fresh_lists = set(n for n, bs in binds.items() if all(bs) and n not in other and n not in self.params)
 
     def var(self, name):
         if name in self.vars:
@@ -348,6 +374,8 @@ class Method(object):
             if isinstance(root, ast.Name) and root.id in GLOBALS and root.id not in self.vars:
                 return '(.global %s)' % lean_str('.'.join([root.id] + path))
             return '(.attrOf %s %s)' % (self.expr(root), _strs(path))
+        if isinstance(n, ast.BoolOp) and isinstance(n.op, ast.Or) and len(n.values) == 2:
+            return '(.orElse %s %s)' % (self.expr(n.values[0]), self.expr(n.values[1]))
         if isinstance(n, ast.List) and not n.elts:
             return '.emptyList'
         if isinstance(n, ast.Dict) and not n.keys:
@@ -527,6 +555,15 @@ class Method(object):
                 pre = []
                 e = self.arg(v, pre)
                 return pre + ['(.setAttr %s %s %s)' % (self.expr(root), _strs(path), e)]
+        if isinstance(n, ast.Expr) and isinstance(n.value, ast.Call) and isinstance(n.value.func, ast.Attribute) \
+                and n.value.func.attr == 'extend' and isinstance(n.value.func.value, ast.Name) \
+                and len(n.value.args) == 1 and not n.value.keywords:
+            x = n.value.func.value.id
+            if x not in self.fresh_lists:
+                self.fail('extend of something that is not a local bound only by `[]` (or that may be aliased)', n)
+            pre = []
+            e = self.arg(n.value.args[0], pre)
+            return pre + ['(.extend %d %s)' % (self.var(x), e)]
         if isinstance(n, ast.Expr) and isinstance(n.value, ast.Call):
             if self.is_pure_call(n.value):
                 self.fail('pure call used as a statement', n)
